@@ -3,17 +3,22 @@
 // prints the result. No logic of its own.
 #include "vh_common.h"
 
+#include "analyzerinfo.h"
 #include "check.h"
 #include "checks.h"
 #include "ctu.h"
 #include "errorlogger.h"
+#include "filesettings.h"
 #include "errortypes.h"
 #include "settings.h"
 #include "vfvalue.h"
 #include "xml.h"
 
+#include <cstdio>
+#include <cstdlib>
 #include <list>
 #include <memory>
+#include <unistd.h>
 
 static CTU::FileInfo::FunctionCall takeFc(const Fields& a, std::size_t& i) {
     CTU::FileInfo::FunctionCall f;
@@ -150,6 +155,50 @@ VH_CMD(ctu) {
     CTU::FileInfo back;
     back.loadFromXml(fileInfoElement(doc));
     Fields out;
+    ctuOut(back, out);
+    return out;
+}
+
+// ncfg ctu*: the summaries of one source analysed under ncfg configurations go to ONE analyzer-info file through
+// AnalyzerInformation::setFileInfo (one call per configuration, as CppCheck::checkNormalTokens does) and are read
+// back through AnalyzerInformation::processFilesTxt (as CppCheck::analyseWholeProgram(buildDir, ...) does)
+VH_CMD(ctucfgs) {
+    std::size_t i = 0;
+    const long long ncfg = vhToLL(a.at(i++));
+    std::list<CTU::FileInfo> cfgs;
+    for (long long k = 0; k < ncfg; k++) {
+        cfgs.emplace_back();
+        takeCtu(a, i, cfgs.back());
+    }
+    char tmpl[] = "/tmp/vh_c22_XXXXXX";
+    const char* dir = mkdtemp(tmpl);
+    if (!dir)
+        throw std::runtime_error("mkdtemp failed");
+    const std::string bd(dir);
+    const std::string src = "src.c";
+    Fields out;
+    std::string err;
+    CTU::FileInfo back;
+    {
+        AnalyzerInformation::writeFilesTxt(bd, {src}, {});
+        AnalyzerInformation ai;
+        std::list<ErrorMessage> errors;
+        ai.analyzeFile(bd, src, "", 0, 1, errors);
+        for (const CTU::FileInfo& c : cfgs)
+            ai.setFileInfo("ctu", c.toString());
+        ai.close();
+        const auto handler = [&back](const char* checkattr, const tinyxml2::XMLElement* e, const AnalyzerInformation::Info&) {
+            if (std::string(checkattr) == "ctu")
+                back.loadFromXml(e);
+        };
+        err = AnalyzerInformation::processFilesTxt(bd, handler);
+    }
+    const std::string afile = AnalyzerInformation::getAnalyzerInfoFile(bd, src, "", 0);
+    std::remove(afile.c_str());
+    std::remove((bd + "/files.txt").c_str());
+    rmdir(bd.c_str());
+    if (!err.empty())
+        return {"!parse"};
     ctuOut(back, out);
     return out;
 }
